@@ -176,31 +176,37 @@ type plan struct {
 	Comment string
 }
 
-// plans: the tiers' spaces. Quick: ordered lists of 1..3 shapes, the match
-// cache on or off for the whole table, extras none | blacklist+rewriter;
-// histories of <= 3 points and <= 2 ticks. Thorough adds the two single
-// extras, <= 4 points, and a second plan with the cache chosen per aggregation.
+// plans: the tiers' spaces. Every tier enumerates every ordered list of 1..3
+// shapes. Quick combines each list with (cache off, no extras) and (cache on,
+// blacklist + rewriter) and runs histories of <= 3 points and <= 2 ticks.
+// Thorough takes the full product cache on|off x extras none | blacklist |
+// rewriter | both with histories of <= 4 points, and a second plan in which
+// the cache is chosen per aggregation (the mixed tables) with <= 3 points.
 func plans(thorough bool) []plan {
 	ls := lists(len(shapes), 1, 3)
-	extras := [][2]bool{{false, false}, {true, true}}
+	type combo struct{ cache, bl, rw bool }
+	combos := []combo{{false, false, false}, {true, true, true}}
 	if thorough {
-		extras = [][2]bool{{false, false}, {true, true}, {true, false}, {false, true}}
-	}
-	var uniform []tspec
-	for _, l := range ls {
+		combos = nil
 		for _, cache := range []bool{false, true} {
-			for _, e := range extras {
-				var s tspec
-				for _, sh := range l {
-					s.Aggs = append(s.Aggs, aggSel{sh, cache})
-				}
-				s.Blacklist, s.Rewriter = e[0], e[1]
-				uniform = append(uniform, s)
+			for _, e := range [][2]bool{{false, false}, {true, true}, {true, false}, {false, true}} {
+				combos = append(combos, combo{cache, e[0], e[1]})
 			}
 		}
 	}
+	var uniform []tspec
+	for _, l := range ls {
+		for _, c := range combos {
+			var s tspec
+			for _, sh := range l {
+				s.Aggs = append(s.Aggs, aggSel{sh, c.cache})
+			}
+			s.Blacklist, s.Rewriter = c.bl, c.rw
+			uniform = append(uniform, s)
+		}
+	}
 	if !thorough {
-		return []plan{{uniform, 3, 2, "cache on|off per table"}}
+		return []plan{{uniform, 3, 2, "every list x {cache off + no extras, cache on + blacklist + rewriter}"}}
 	}
 	var mixed []tspec
 	for _, l := range lists(2*len(shapes), 2, 3) {
@@ -217,13 +223,16 @@ func plans(thorough bool) []plan {
 		if on == 0 || off == 0 {
 			continue // uniform: in the first plan
 		}
-		for _, e := range extras {
+		for _, e := range [][2]bool{{false, false}, {true, true}} {
 			s2 := s
 			s2.Blacklist, s2.Rewriter = e[0], e[1]
 			mixed = append(mixed, s2)
 		}
 	}
-	return []plan{{uniform, 4, 2, "cache on|off per table"}, {mixed, 3, 2, "cache chosen per aggregation (mixed tables only)"}}
+	return []plan{
+		{uniform, 4, 2, "every list x cache on|off for the whole table x extras none | blacklist+rewriter | blacklist | rewriter"},
+		{mixed, 3, 2, "lists of 2..3 with the cache chosen per aggregation (mixed tables only) x extras none | blacklist+rewriter"},
+	}
 }
 
 // streams: every sequence with exactly `points` points and `ticks` ticks.
@@ -326,6 +335,7 @@ type violation struct {
 	Sig    string                 `json:"sig"`
 	What   string                 `json:"what"`
 	Replay map[string]interface{} `json:"replay"`
+	Labels []string               `json:"labels"`
 }
 
 type result struct {
@@ -422,9 +432,9 @@ func (w *worker) setExtras(bl, rw bool) {
 
 // install creates the aggregators of the table exactly as imperatives.addAgg
 // wires them (out = table.GetIn()), with an injected clock and tick channel.
-func (w *worker) install(s tspec) ref.Pipe {
+func (w *worker) install(s tspec) *ref.Pipe {
 	w.setExtras(s.Blacklist, s.Rewriter)
-	p := ref.Pipe{}
+	p := &ref.Pipe{}
 	if s.Blacklist {
 		p.Table.Blacklist = []ref.Filter{blackFilter}
 	}
@@ -477,6 +487,14 @@ func (w *worker) inSum() int64 {
 	return s
 }
 
+func (w *worker) outSum() int64 {
+	var s int64
+	for _, k := range w.keys {
+		s += k.out.Count()
+	}
+	return s
+}
+
 const maxRounds = 6
 
 // rest is harn.AggRest with a bound: it gives up when the number of lines the
@@ -493,6 +511,15 @@ func (w *worker) rest(a *aggregator.Aggregator, maxLines int) bool {
 	return true
 }
 
+func (w *worker) restAll(maxLines int) bool {
+	for _, a := range w.aggs {
+		if !w.rest(a.a, maxLines) {
+			return false
+		}
+	}
+	return true
+}
+
 func (w *worker) sentinels() {
 	in := w.t.GetIn()
 	in <- sentinel1
@@ -500,34 +527,48 @@ func (w *worker) sentinels() {
 	w.sentSent += 2
 }
 
-// settle brings the composition table -> aggregators -> table to rest.
-// It returns a non-empty description when it does not come to rest within the
-// bounds (routing loop).
-func (w *worker) settle(expLines int) string {
+// settle brings the composition table -> aggregators -> table to rest after
+// one operation. out0 is the sum of the aggregators' out-counters before the
+// operation. It returns a non-empty description when the composition does not
+// come to rest within the bounds (routing loop).
+//
+//  1. every aggregator at rest: it has processed the points it was handed and,
+//     after a tick, finished its flush, i.e. the table's aggregate goroutine has
+//     accepted every line (its out-counter is final);
+//  2. two sentinels: the aggregate goroutine has dispatched all of them;
+//  3. if any aggregator emitted anything in this operation, the aggregate
+//     goroutine may (wrongly) have fed aggregators: every aggregator at rest
+//     again, and if an in-counter moved meanwhile, another round.
+//
+// When no aggregator emitted anything (3) is void: only sentinels went through
+// Table.In.
+func (w *worker) settle(expLines int, out0 int64) string {
 	maxLines := 4*expLines + 16 + 2*maxRounds*3
+	explosion := func() string {
+		return fmt.Sprintf("the catch-all route has been handed more than %d lines (%d) while the reference emits %d aggregate lines for this operation", maxLines, w.caps[0].count(), expLines)
+	}
 	for round := 1; ; round++ {
-		for _, a := range w.aggs {
-			if !w.rest(a.a, maxLines) {
-				return fmt.Sprintf("the catch-all route has been handed more than %d lines while the reference emits %d aggregate lines, and an aggregator's inbox keeps refilling", maxLines, expLines)
-			}
+		if !w.restAll(maxLines) {
+			return explosion()
 		}
 		before := w.inSum()
 		w.sentinels()
-		for _, a := range w.aggs {
-			if !w.rest(a.a, maxLines) {
-				return fmt.Sprintf("the catch-all route has been handed more than %d lines while the reference emits %d aggregate lines, and an aggregator's inbox keeps refilling", maxLines, expLines)
-			}
-		}
 		atomic.AddInt64(&w.progress, 1)
 		w.res.Barriers++
+		if w.outSum() == out0 {
+			return ""
+		}
+		if !w.restAll(maxLines) {
+			return explosion()
+		}
 		if w.inSum() == before {
 			return ""
 		}
 		if round >= maxRounds {
 			return fmt.Sprintf("aggregators were still being fed by the table's aggregate goroutine after %d barrier rounds", maxRounds)
 		}
-		if n := w.caps[0].count(); n > maxLines {
-			return fmt.Sprintf("the catch-all route has been handed %d lines while the reference emits %d aggregate lines", n, expLines)
+		if w.caps[0].count() > maxLines {
+			return explosion()
 		}
 	}
 }
@@ -555,71 +596,125 @@ func eq(a, b []string) bool {
 	return true
 }
 
+// describe re-runs the reference over the first n operations of a history that
+// started with the clock at `clock` and renders what it demands per step.
+func describe(spec tspec, pipe *ref.Pipe, st []byte, n int, clock int64) []string {
+	state := pipe.NewState()
+	var out []string
+	val := int64(1)
+	for k := 0; k < n; k++ {
+		op := byte(opTick)
+		if k < len(st) {
+			op = st[k]
+		}
+		if op == opTick {
+			clock += tickStep
+			exp := pipe.Tick(state, clock)
+			out = append(out, fmt.Sprintf("tick@%d -> %v", clock, exp.Lines))
+			continue
+		}
+		exp := pipe.Point(state, names[op], val, clock)
+		out = append(out, fmt.Sprintf("%s %d %d -> blacklisted=%v taken_by=%v consumed=%v routes=%v", names[op], val, clock, exp.Blacklisted, taken(spec, exp.AggSeen), exp.Consumed, exp.Accepted))
+		val *= 2
+	}
+	return out
+}
+
 // runTable executes the streams [0, upto) on a freshly installed table and
 // compares every step with the reference. It returns false after the first
 // violation (the table is then abandoned).
 func (w *worker) runTable(ti int, spec tspec, sts [][]byte, points int, upto int, sample bool) bool {
 	pipe := w.install(spec)
 	tbl := spec.String()
-	states := map[string]struct{}{}
+	states := map[uint64]struct{}{}
 	ok := true
-	var trace []string // the steps of the current stream, for messages and samples
+	var startClock int64
+	expIn := make([]int64, len(w.keys))
+	expOut := make([]int64, len(w.keys))
+	reOnly := make([]ref.Filter, len(pipe.Table.Aggs))
+	pre := make([]ref.Filter, len(pipe.Table.Aggs))
+	for i, a := range pipe.Table.Aggs {
+		reOnly[i] = ref.Filter{Regex: a.Filter.Regex}
+		pre[i] = ref.Filter{Prefix: a.Filter.Prefix, NotPrefix: a.Filter.NotPrefix, Sub: a.Filter.Sub, NotSub: a.Filter.NotSub}
+	}
 
+	histLabels := map[string]bool{}
+	tableLabels := map[string]bool{} // kinds of problems already reported for this table
 	fail := func(si int, step int, kind string, problems []string) {
 		ok = false
 		st := sts[si]
-		what := fmt.Sprintf("table %s (routes: %s): history [%s] step %d: %s: %s", tbl, routesString(), streamString(st), step+1, kind, strings.Join(problems, "; "))
+		what := fmt.Sprintf("table %s (routes: %s): history [%s]: first deviation at step %d (%s): %s", tbl, routesString(), streamString(st), step+1, kind, strings.Join(problems, " | "))
+		if len(what) > 1600 {
+			what = what[:1600] + " ... (complete list in the replay file)"
+		}
 		sig := fmt.Sprintf("table %s history %s step %d %s", tbl, streamString(st), step+1, kind)
 		w.resMu.Lock()
-		w.res.Violations = append(w.res.Violations, violation{ti, si, sig, what, map[string]interface{}{
-			"table": spec, "points": points, "stream_index": si, "history": streamString(st), "step": step + 1, "steps_so_far": append([]string(nil), trace...), "problems": problems,
+		var labels []string
+		for l := range histLabels {
+			labels = append(labels, l)
+		}
+		sort.Strings(labels)
+		w.res.Violations = append(w.res.Violations, violation{Table: ti, Stream: si, Sig: sig, What: what, Labels: labels, Replay: map[string]interface{}{
+			"table": spec, "points": points, "stream_index": si, "history": streamString(st), "first_deviation_at_step": step + 1, "reference_per_step": describe(spec, pipe, st, fullLen(st), startClock), "problems": problems,
 			"note": "replay re-runs the histories 0..stream_index of this table in enumeration order on fresh aggregators (cache contents and clock are carried from history to history, as in the run)",
 		}})
 		w.resMu.Unlock()
 	}
 
+	// problems of the current history, per step; the history is reported once, at its end
+	firstBad, firstKind := -1, ""
+	var histProblems []string
+	reported := 0
+	noteBad := func(k int, kind string, problems []string) {
+		if firstBad < 0 {
+			firstBad, firstKind = k, kind
+		} else if (kind == "ROUTING LOOP" || strings.HasSuffix(kind, "AMPLIFICATION")) && !strings.Contains(firstKind, kind) {
+			firstKind += ", later " + kind
+		}
+		for _, p := range problems {
+			histLabels[p[:strings.IndexByte(p, ':')]] = true
+		}
+		if len(histProblems) < 12 {
+			histProblems = append(histProblems, fmt.Sprintf("step %d (%s): %s", k+1, kind, strings.Join(problems, "; ")))
+		}
+	}
+
 	// step executes one operation (op == opTick: tick) and checks it.
 	step := func(si, k int, op byte, val int64, state *ref.PipeState) bool {
-		for _, kc := range w.keys {
+		for ki, kc := range w.keys {
 			kc.in0, kc.out0 = kc.in.Count(), kc.out.Count()
+			expIn[ki], expOut[ki] = 0, 0
 		}
+		out0 := w.outSum()
 		c0 := w.counters()
 		var problems []string
 		var loop string
-		var wantRoutes map[string][]string
-		var desc string
-		expIn := make([]int64, len(w.keys))
-		expOut := make([]int64, len(w.keys))
+		var tickExp ref.PipeTick
+		var pointExp ref.PipePoint
 		var expTableIn, expBlack int64
 		expLines := 0
 
 		if op == opTick {
 			clock := atomic.AddInt64(&w.clock, tickStep)
-			exp := pipe.Tick(state, clock)
-			wantRoutes = exp.Routes
-			expLines = exp.Total
+			tickExp = pipe.Tick(state, clock)
+			expLines = tickExp.Total
 			for ki, kc := range w.keys {
 				for _, m := range kc.members {
-					expOut[ki] += int64(len(exp.Lines[m]))
+					expOut[ki] += int64(len(tickExp.Lines[m]))
 				}
 			}
-			w.res.AggLines += int64(exp.Total)
-			desc = fmt.Sprintf("tick@%d -> %v", clock, exp.Lines)
+			w.res.AggLines += int64(tickExp.Total)
+			tm := time.Unix(clock, 0)
 			for _, a := range w.aggs {
-				a.tick <- time.Unix(clock, 0)
+				a.tick <- tm
 			}
-			loop = w.settle(expLines)
+			loop = w.settle(expLines, out0)
 		} else {
 			ts := atomic.LoadInt64(&w.clock)
 			name := names[op]
-			exp := pipe.Point(state, name, val, ts)
+			pointExp = pipe.Point(state, name, val, ts)
+			exp := &pointExp
 			line := name + " " + strconv.FormatInt(val, 10) + " " + strconv.FormatInt(ts, 10)
-			wantRoutes = map[string][]string{}
-			for d, n := range exp.Deliveries {
-				for i := 0; i < n; i++ {
-					wantRoutes[d.Route] = append(wantRoutes[d.Route], exp.Line)
-				}
-			}
 			expTableIn = 1
 			expBlack = int64(exp.Blacklist)
 			for ki, kc := range w.keys {
@@ -635,8 +730,8 @@ func (w *worker) runTable(ti int, spec tspec, sts [][]byte, points int, upto int
 				if exp.Consumed {
 					w.res.Consumed++
 				}
-				// near miss: a drop-raw aggregation that was offered the metric, whose regex alone
-				// or whose cheap conditions accept it, but whose complete filter does not
+				// near miss: a drop-raw aggregation that is offered the metric, whose regex alone or
+				// whose cheap conditions accept it, but whose complete filter does not
 				for i, a := range pipe.Table.Aggs {
 					if !a.DropRaw {
 						continue
@@ -644,66 +739,73 @@ func (w *worker) runTable(ti int, spec tspec, sts [][]byte, points int, upto int
 					if exp.AggSeen[i] {
 						break // consumed here: the later aggregations are not offered the metric
 					}
-					reOnly := ref.Filter{Regex: a.Filter.Regex}
-					pre := ref.Filter{Prefix: a.Filter.Prefix, NotPrefix: a.Filter.NotPrefix, Sub: a.Filter.Sub, NotSub: a.Filter.NotSub}
-					if fmatch(reOnly, exp.Name) || (pre != (ref.Filter{}) && fmatch(pre, exp.Name)) {
+					if fmatch(reOnly[i], exp.Name) || (pre[i] != (ref.Filter{}) && fmatch(pre[i], exp.Name)) {
 						w.res.NearMiss++
 						break
 					}
 				}
 			}
-			desc = fmt.Sprintf("%s -> blacklisted=%v taken_by=%v consumed=%v routes=%v", line, exp.Blacklisted, taken(spec, exp.AggSeen), exp.Consumed, exp.Accepted)
 			w.t.Dispatch([]byte(line))
-			loop = w.settle(0)
+			loop = w.settle(0, out0)
 		}
-		trace = append(trace, desc)
 		w.res.Ops++
 
 		if loop != "" {
-			fail(si, k, "ROUTING LOOP", []string{loop})
+			noteBad(k, "ROUTING LOOP", []string{"loop: " + loop})
 			return false
 		}
 		// observations
 		c1 := w.counters()
 		if d := c1.in - c0.in; d != expTableIn {
-			problems = append(problems, fmt.Sprintf("the table's unit=Metric.direction=in counter moved by %d, expected %d (aggregate lines and sentinels are not input)", d, expTableIn))
+			problems = append(problems, fmt.Sprintf("table-in: the table's unit=Metric.direction=in counter moved by %d, expected %d (aggregate lines and sentinels are not input)", d, expTableIn))
 		}
 		if d := c1.invalid - c0.invalid; d != 0 {
-			problems = append(problems, fmt.Sprintf("%d line(s) rejected by validation, expected none (raw names are valid, aggregate output is not validated)", d))
+			problems = append(problems, fmt.Sprintf("validated: %d line(s) rejected by validation, expected none (raw names are valid, aggregate output is not validated)", d))
 		}
 		if d := c1.black - c0.black; d != expBlack {
-			problems = append(problems, fmt.Sprintf("blacklist counter moved by %d, expected %d", d, expBlack))
+			problems = append(problems, fmt.Sprintf("blacklisted: blacklist counter moved by %d, expected %d", d, expBlack))
 		}
 		if d := c1.unr - c0.unr; d != 0 {
-			problems = append(problems, fmt.Sprintf("unroutable counter moved by %d although a catch-all route exists", d))
+			problems = append(problems, fmt.Sprintf("unroutable: unroutable counter moved by %d although a catch-all route exists", d))
 		}
 		if d := c1.tooOld - c0.tooOld; d != 0 {
-			problems = append(problems, fmt.Sprintf("%d point(s) arrived at an aggregator for an already closed bucket (TooOld); raw points carry the current time, only re-entering aggregate lines are that old", d))
+			problems = append(problems, fmt.Sprintf("re-entry-too-old: %d point(s) arrived at an aggregator for an already closed bucket (TooOld); raw points carry the current time, only re-entering aggregate lines are that old", d))
 		}
 		for ki, kc := range w.keys {
 			if d := kc.in.Count() - kc.in0; d != expIn[ki] {
-				problems = append(problems, fmt.Sprintf("aggregation(s) %s (counter key %s) took %d point(s), expected %d (raw points accepted by the complete filter only)", memberNames(spec, kc.members), kc.key, d, expIn[ki]))
+				problems = append(problems, fmt.Sprintf("aggregation-input: aggregation(s) %s (counter key %s) took %d point(s), expected %d (raw points accepted by the complete filter only)", memberNames(spec, kc.members), kc.key, d, expIn[ki]))
 			}
 			if d := kc.out.Count() - kc.out0; d != expOut[ki] {
-				problems = append(problems, fmt.Sprintf("aggregation(s) %s (counter key %s) emitted %d line(s), expected %d", memberNames(spec, kc.members), kc.key, d, expOut[ki]))
+				problems = append(problems, fmt.Sprintf("aggregation-output: aggregation(s) %s (counter key %s) emitted %d line(s), expected %d", memberNames(spec, kc.members), kc.key, d, expOut[ki]))
 			}
 		}
 		total := 0
 		for ri, c := range w.caps {
 			got, sent := c.take()
 			key := routeSpecs[ri].Key
-			if key == "sentinel" {
+			if ri == len(w.caps)-1 {
 				w.sentSeen += sent
 			}
-			if key == "all" {
+			if ri == 0 {
 				total = len(got)
 			}
-			if !eq(got, wantRoutes[key]) {
-				problems = append(problems, fmt.Sprintf("route %s{%s} was handed %q, expected %q", key, routeSpecs[ri].Filter, got, wantRoutes[key]))
+			var want []string
+			if op == opTick {
+				want = tickExp.Routes[key]
+			} else if n := pointExp.Deliveries[ref.Delivery{Route: key, Dest: ref.DestOfRoute}]; n == 1 {
+				if len(got) == 1 && got[0] == pointExp.Line {
+					continue
+				}
+				want = []string{pointExp.Line}
+			} else if n != 0 {
+				panic("reference: capture route handed a metric more than once")
+			}
+			if !eq(got, want) {
+				problems = append(problems, fmt.Sprintf("%s: route %s{%s} was handed %q, expected %q", routeLabel(op), key, routeSpecs[ri].Filter, got, want))
 			}
 		}
 		if w.sentSeen < w.sentSent-1 {
-			problems = append(problems, fmt.Sprintf("the sentinel route has seen %d of %d sentinel lines sent through Table.In (a line sent to Table.In must reach every route matching its name)", w.sentSeen, w.sentSent))
+			problems = append(problems, fmt.Sprintf("sentinel-lost: the sentinel route has seen %d of %d sentinel lines sent through Table.In (a line sent to Table.In must reach every route matching its name)", w.sentSeen, w.sentSent))
 		}
 		if len(problems) > 0 {
 			kind := "point"
@@ -713,35 +815,69 @@ func (w *worker) runTable(ti int, spec tspec, sts [][]byte, points int, upto int
 					kind = "tick AMPLIFICATION"
 				}
 			}
-			fail(si, k, kind, problems)
-			return false
+			noteBad(k, kind, problems)
+			return true // the rest of the history is still executed: what follows a first deviation is often the more telling symptom
 		}
-		states[state.Canon(atomic.LoadInt64(&w.clock))] = struct{}{}
+		if firstBad < 0 {
+			states[state.Hash(atomic.LoadInt64(&w.clock))] = struct{}{}
+		}
 		return true
 	}
 
-	for si := 0; si < upto && ok; si++ {
+	abandon := false
+	for si := 0; si < upto && !abandon; si++ {
 		st := sts[si]
-		w.where.Store(tbl + " / " + streamString(st))
+		firstBad, firstKind, histProblems = -1, "", nil
+		for l := range histLabels {
+			delete(histLabels, l)
+		}
+		if si&15 == 0 {
+			w.where.Store(tbl + " / history " + strconv.Itoa(si) + "..")
+		}
 		state := pipe.NewState()
-		trace = trace[:0]
+		startClock = atomic.LoadInt64(&w.clock)
 		val := int64(1)
 		aggBefore := w.res.AggLines
+		nsteps := len(st)
+		looped := false
 		for k, op := range st {
 			if !step(si, k, op, val, state) {
+				looped = true
 				break
 			}
 			if op != opTick {
 				val *= 2
 			}
 		}
-		if ok && st[len(st)-1] != opTick {
+		if !looped && st[len(st)-1] != opTick {
 			// closing tick: leaves every aggregator empty for the next history
 			step(si, len(st), opTick, 0, state)
+			nsteps++
 		}
-		if ok && !state.Empty() {
-			w.res.Infra = "harness: reference state not empty after the closing tick"
+		if firstBad >= 0 {
+			// a failing history is reported when it shows a kind of problem not yet reported for this
+			// table; the table is run on (at most 4 reports) because later histories often show the more
+			// telling symptom, but it is abandoned at once when the composition does not come to rest
 			ok = false
+			fresh := false
+			for l := range histLabels {
+				if !tableLabels[l] {
+					tableLabels[l] = true
+					fresh = true
+				}
+			}
+			if fresh {
+				fail(si, firstBad, firstKind, histProblems)
+				reported++
+			}
+			if looped || reported >= 4 || w.res.Infra != "" {
+				abandon = true
+			}
+			continue
+		}
+		if !state.Empty() {
+			w.res.Infra = "harness: reference state not empty after the closing tick"
+			ok, abandon = false, true
 		}
 		if ok {
 			w.res.Traces++
@@ -750,12 +886,12 @@ func (w *worker) runTable(ti int, spec tspec, sts [][]byte, points int, upto int
 			}
 			if w.verbose != nil {
 				fmt.Fprintf(w.verbose, "history %d [%s]\n", si, streamString(st))
-				for i, d := range trace {
+				for i, d := range describe(spec, pipe, st, nsteps, startClock) {
 					fmt.Fprintf(w.verbose, "   %d. %s\n", i+1, d)
 				}
 			}
 			if sample && (si == upto/3 || si == upto-1) && len(w.res.Samples) < 8 {
-				w.res.Samples = append(w.res.Samples, map[string]interface{}{"table": tbl, "history": streamString(st), "steps_checked": append([]string(nil), trace...)})
+				w.res.Samples = append(w.res.Samples, map[string]interface{}{"table": tbl, "history": streamString(st), "steps_checked": describe(spec, pipe, st, nsteps, startClock)})
 			}
 		}
 	}
@@ -767,15 +903,17 @@ func (w *worker) runTable(ti int, spec tspec, sts [][]byte, points int, upto int
 		atomic.AddInt64(&w.progress, 1)
 		for ri, c := range w.caps {
 			got, sent := c.take()
-			if routeSpecs[ri].Key == "sentinel" {
+			if ri == len(w.caps)-1 {
 				w.sentSeen += sent
 			}
 			if len(got) > 0 {
-				fail(upto-1, len(sts[upto-1]), "shutdown", []string{fmt.Sprintf("route %s was handed %q when the (empty) aggregators were shut down", routeSpecs[ri].Key, got)})
+				histLabels = map[string]bool{"shutdown-output": true}
+				fail(upto-1, len(sts[upto-1]), "shutdown", []string{fmt.Sprintf("shutdown-output: route %s was handed %q when the (empty) aggregators were shut down", routeSpecs[ri].Key, got)})
 				break
 			}
 		}
 	} else {
+		w.sentinels()
 		for _, c := range w.caps {
 			c.take()
 		}
@@ -797,6 +935,21 @@ func fmatch(f ref.Filter, name string) bool {
 		fcache[f] = c
 	}
 	return c.Match([]byte(name))
+}
+
+// fullLen is the number of operations of a history including the closing tick.
+func fullLen(st []byte) int {
+	if st[len(st)-1] != opTick {
+		return len(st) + 1
+	}
+	return len(st)
+}
+
+func routeLabel(op byte) string {
+	if op == opTick {
+		return "aggregate-routing"
+	}
+	return "raw-routing"
 }
 
 func routesString() string {
@@ -830,7 +983,7 @@ func memberNames(spec tspec, members []int) string {
 
 var ballast []byte
 
-const stuckAfter = 45 // seconds without a completed barrier round
+const stuckAfter = 20 // seconds without a completed barrier round
 
 func quietStdout() *os.File {
 	orig := os.Stdout
@@ -852,7 +1005,7 @@ func workerMain(spec string) {
 	log.SetOutput(io.Discard)
 	aggregator.InitMetrics()
 	start := time.Now()
-	// the table's 100000-slot bad-metrics channel is rescanned by every GC cycle: make cycles rare
+	// measured: a larger heap (GOGC 400, 1000) costs more in page faults on this machine than it saves in GC cycles
 	if v, err := strconv.Atoi(os.Getenv("C11_GOGC")); err == nil {
 		debug.SetGCPercent(v)
 	}
@@ -891,7 +1044,7 @@ func workerMain(spec string) {
 			if same >= stuckAfter {
 				at := w.where.Load().(string)
 				w.resMu.Lock()
-				w.res.Violations = append(w.res.Violations, violation{-1, -1, "stuck " + at, fmt.Sprintf("ROUTING LOOP / DEADLOCK: no barrier completed for %d s at %s: the composition table -> aggregator -> table does not come to rest", stuckAfter, at), map[string]interface{}{"at": at}})
+				w.res.Violations = append(w.res.Violations, violation{Table: -1, Stream: -1, Sig: "stuck " + at, What: fmt.Sprintf("ROUTING LOOP / DEADLOCK: no barrier completed for %d s at %s: the composition table -> aggregator -> table does not come to rest", stuckAfter, at), Replay: map[string]interface{}{"at": at}, Labels: []string{"stuck"}})
 				w.res.Cut = "stuck"
 				w.resMu.Unlock()
 				emit()
@@ -1057,7 +1210,7 @@ func main() {
 	for i, r := range results {
 		if errs[i] != "" {
 			// a crashed worker (panic in the code under test, e.g. a nil matcher) is a finding of its own
-			viols = append(viols, violation{-1, -1, "worker crashed", "a worker process died: " + errs[i], map[string]interface{}{"stderr": errs[i]}})
+			viols = append(viols, violation{Table: -1, Stream: -1, Sig: "worker crashed", What: "a worker process died: " + errs[i], Replay: map[string]interface{}{"stderr": errs[i]}, Labels: []string{"crash"}})
 			cuts = append(cuts, "worker crashed")
 			continue
 		}
@@ -1094,7 +1247,25 @@ func main() {
 		}
 		return a.Stream < b.Stream
 	})
-	for i, v := range viols {
+	// report at most 8: first those that show a kind of problem not shown yet, then in order
+	seenLabel := map[string]bool{}
+	var pick, restV []violation
+	for _, v := range viols {
+		fresh := false
+		for _, l := range v.Labels {
+			if !seenLabel[l] {
+				seenLabel[l] = true
+				fresh = true
+			}
+		}
+		if fresh {
+			pick = append(pick, v)
+		} else {
+			restV = append(restV, v)
+		}
+	}
+	pick = append(pick, restV...)
+	for i, v := range pick {
 		if i >= 8 {
 			break
 		}
